@@ -233,7 +233,11 @@ func ruleListOrderPreserved(w *World, r *Report, rule string, la *LockAnalysis) 
 						continue
 					}
 					rhs := unparen(as.Rhs[i])
-					ok = orderPreserving(w, info, rhs, func(e ast.Expr) bool { return fieldOf(info, e) == a.Field }, 2)
+					isList := func(e ast.Expr) bool { return fieldOf(info, e) == a.Field }
+					ok = orderPreserving(w, info, rhs, isList, 2)
+					if id, isId := rhs.(*ast.Ident); !ok && isId && a.Unit.body != nil {
+						ok = filteredCopy(info, a.Unit.body, objOf(info, id), isList) || rehousedCopy(info, a.Unit.body, objOf(info, id), isList)
+					}
 					if !ok {
 						why = "the descriptor list is assigned " + exprStr(rhs) + ", which is neither an append, a reset nor an order-preserving delete"
 					}
@@ -304,6 +308,9 @@ func ruleNoPackageState(w *World, r *Report, rule string) {
 		sc := p.Types.Scope()
 		for _, name := range sc.Names() {
 			if v, ok := sc.Lookup(name).(*types.Var); ok {
+				if isErrorSentinel(p, v) {
+					continue // var errX = errors.New("…"), never assigned: a constant in all but name
+				}
 				vars = append(vars, v.Name())
 			}
 		}
@@ -1006,4 +1013,148 @@ func selectsByIdentity(w *World, fi *FuncInfo, obj types.Object, depth int) bool
 		return true
 	})
 	return found
+}
+
+// filteredCopy: the local variable obj holds, at the end of body, the elements of
+// the list (as recognised by isList) that pass some test, in the list's order:
+//
+//	kept := make([]T, 0, n)          (or nil, or an empty literal)
+//	for _, x := range list { if … { kept = append(kept, x) } }
+//
+// Its only definitions are the empty start and ONE `obj = append(obj, elem)`
+// inside a forward element loop over the list that is not itself inside another
+// loop; its only other uses are len(obj)/cap(obj) and plain reads as a whole on
+// the right of an assignment (the hand-over to the field).
+func filteredCopy(info *types.Info, body *ast.BlockStmt, obj types.Object, isList func(ast.Expr) bool) bool {
+	if obj == nil || body == nil {
+		return false
+	}
+	var loops []*iterLoop
+	var nested = map[ast.Stmt]bool{}
+	var walk func(n ast.Node, inLoop bool)
+	walk = func(n ast.Node, inLoop bool) {
+		ast.Inspect(n, func(m ast.Node) bool {
+			if m == nil || m == n {
+				return true
+			}
+			switch s := m.(type) {
+			case *ast.FuncLit:
+				return false
+			case *ast.ForStmt:
+				nested[s] = inLoop
+				walk(s, true)
+				return false
+			case *ast.RangeStmt:
+				nested[s] = inLoop
+				walk(s, true)
+				return false
+			}
+			return true
+		})
+	}
+	walk(body, false)
+	loops = iterLoopsIn(info, body)
+	appends, okAll := 0, true
+	allowed := map[*ast.Ident]bool{}
+	inspectNoLit(body, func(m ast.Node) bool {
+		switch s := m.(type) {
+		case *ast.AssignStmt:
+			for i, l := range s.Lhs {
+				id, isId := unparen(l).(*ast.Ident)
+				if !isId || objOf(info, id) != obj {
+					continue
+				}
+				allowed[id] = true
+				if len(s.Rhs) != len(s.Lhs) {
+					okAll = false
+					continue
+				}
+				rhs := unparen(s.Rhs[i])
+				if isNilIdent(info, rhs) {
+					continue
+				}
+				if cl, isCl := rhs.(*ast.CompositeLit); isCl && len(cl.Elts) == 0 {
+					continue
+				}
+				c, isC := rhs.(*ast.CallExpr)
+				if !isC {
+					okAll = false
+					continue
+				}
+				switch exprStr(c.Fun) {
+				case "make":
+					continue
+				case "append":
+					if len(c.Args) != 2 || c.Ellipsis.IsValid() || objOf(info, c.Args[0]) != obj {
+						okAll = false
+						continue
+					}
+					allowed[unparen(c.Args[0]).(*ast.Ident)] = true
+					found := false
+					for _, lp := range loops {
+						if lp.Dir != "fwd" || lp.Coll == nil || !isList(lp.Coll) || nested[lp.Stmt] {
+							continue
+						}
+						if s.Pos() >= lp.Body.Pos() && s.End() <= lp.Body.End() && lp.IsElem(c.Args[1]) {
+							found = true
+						}
+					}
+					if !found {
+						okAll = false
+					}
+					appends++
+				default:
+					okAll = false
+				}
+			}
+		case *ast.ValueSpec:
+			for i, nm := range s.Names {
+				if info.Defs[nm] == obj {
+					allowed[nm] = true
+					if i < len(s.Values) {
+						v := unparen(s.Values[i])
+						c, isC := v.(*ast.CallExpr)
+						if !(isNilIdent(info, v) || (isC && exprStr(c.Fun) == "make")) {
+							okAll = false
+						}
+					}
+				}
+			}
+		case *ast.CallExpr:
+			if f := exprStr(s.Fun); (f == "len" || f == "cap") && len(s.Args) == 1 {
+				if id, isId := unparen(s.Args[0]).(*ast.Ident); isId && objOf(info, id) == obj {
+					allowed[id] = true
+				}
+			}
+		}
+		return true
+	})
+	if !okAll || appends != 1 {
+		return false
+	}
+	// every other use: a whole-value read on the right of an assignment or in a return
+	inspectNoLit(body, func(m ast.Node) bool {
+		switch s := m.(type) {
+		case *ast.AssignStmt:
+			for _, r := range s.Rhs {
+				if id, isId := unparen(r).(*ast.Ident); isId && objOf(info, id) == obj {
+					allowed[id] = true
+				}
+			}
+		case *ast.ReturnStmt:
+			for _, r := range s.Results {
+				if id, isId := unparen(r).(*ast.Ident); isId && objOf(info, id) == obj {
+					allowed[id] = true
+				}
+			}
+		}
+		return true
+	})
+	ast.Inspect(body, func(m ast.Node) bool {
+		if id, isId := m.(*ast.Ident); isId && info.Uses[id] == obj && !allowed[id] {
+			okAll = false
+		}
+		return true
+	})
+	return okAll
 }
